@@ -353,6 +353,12 @@ def run_check(prop, tier, fn, explanation, trusted=None):
         rep.note('files', sorted(repo.files_read))
         return rep.finish()
     except AnalysisError as e:
+        if rep.violations:
+            # a violation established before the analysis got stuck stands on its own
+            print('NOTE property=%s: analysis incomplete (%s); reporting the violations found before that' % (prop, e))
+            rep.extra['analysis_error'] = str(e)
+            rep.floor_failures = []
+            return rep.finish()
         print('ANALYSIS-ERROR property=%s: %s' % (prop, e))
         rep.extra['analysis_error'] = str(e)
         try:
